@@ -145,6 +145,33 @@ Theorem rcp_safe_finite_sign_nosimd : forall x, finite32 x ->
 Proof. exact rcp_safe_nosimd_finite_sign. Qed.
 Print Assumptions rcp_safe_finite_sign_nosimd.
 
+(* type-generic form (rcp_safe_t<T>, any precision): for ANY monotone odd rounding rn with rn 0 = 0 and any positive
+   threshold tmin = numeric_limits<T>::min(): the argument handed to rcp has magnitude >= tmin and the sign sense of x,
+   the result is never of the opposite sign to x and is bounded by rn(1/tmin) *)
+Theorem rcp_safe_sign_any_precision : forall (rn : R -> R) (tmin : R),
+  (forall x y, x <= y -> rn x <= rn y) -> rn 0 = 0 -> (forall x, rn (- x) = - rn x) -> 0 < tmin ->
+  forall x,
+  tmin <= Rabs (rcp_safe_arg_g tmin x) /\
+  (0 <= x -> 0 < rcp_safe_arg_g tmin x) /\ (x < 0 -> rcp_safe_arg_g tmin x < 0) /\
+  0 <= rcp_safe_g rn tmin x * x /\ Rabs (rcp_safe_g rn tmin x) <= rn (/ tmin).
+Proof. exact rcp_safe_g_sign. Qed.
+Print Assumptions rcp_safe_sign_any_precision.
+
+(* the double overload: rcp_safe(double) is finite (|result| <= 2^1022) and never of the opposite sign, for every real
+   x (in particular every finite double: zeros, denormals, values that narrow to +-0.0f or +-inf as float) *)
+Theorem rcp_safe_double_finite_sign : forall x,
+  DBL_MIN <= Rabs (rcp_safe_arg_g DBL_MIN x) /\
+  (0 <= x -> 0 < rcp_safe_arg_g DBL_MIN x) /\ (x < 0 -> rcp_safe_arg_g DBL_MIN x < 0) /\
+  0 <= rcp_safe_g rnd64 DBL_MIN x * x /\ Rabs (rcp_safe_g rnd64 DBL_MIN x) <= bpow radix2 1022.
+Proof. exact rcp_safe_double_sign. Qed.
+Print Assumptions rcp_safe_double_finite_sign.
+
+(* the twin on doubles: rcp_safe(-4.9e-324) = -2^1022, rcp_safe(-0.0) = +2^1022 (x >= 0 holds for -0), rcp(3.0) *)
+Example b64_known_answers :
+  run_cases [(41, [9223372036854775809]); (41, [9223372036854775808]); (41, [0]); (40, [4613937818241073152])]%Z
+  = [18433233274827440128; 9209861237972664320; 9209861237972664320; 4599676419421066581]%Z.
+Proof. vm_compute. reflexivity. Qed.
+
 Example rcp_safe_denormal_inhabited :
   finite32 (bpow radix2 (-149)) /\ Rabs (bpow radix2 (-149)) < FLT_MIN.
 Proof. exact denormal_is_finite. Qed.
